@@ -77,6 +77,9 @@ PENDING_TRIAGE = [
     "pad_r3", "pad_hw_channel",
                              # repro_8: PAD that pads the first or last dimension together with other dimensions: convert_pad_to_concat
                              #          keeps only one axis, the rest of the OFM is never written and then read (C03 NoUninitRead)
+    "sslice_newaxis", "sslice_newaxis_off",
+                             # repro_12: STRIDED_SLICE with new_axis_mask: begin/end entries are applied to the wrong input dimensions
+                             #           (C03 ReadsIntended when a later begin is non-zero; C10 PadAfter on the inconsistent read window)
     "memonly:unpack_pack",   # repro_9: PACK/CONCATENATION result with batch > 1: the Add appended by add_add_op_after_concat covers batch 0
                              #          only, the consumer reads stale bytes of another tensor (C03 ReadsIntended)
 ]
